@@ -56,7 +56,7 @@ def run(chk):
               'elementpath/xpath1/_xpath1_functions.py', 'elementpath/xpath30/_xpath30_operators.py', 'elementpath/sequences.py'):
         chk.record_source(f)
     chk.forbidden_scan(['C08'])
-    proved = chk.prove(['theories/C08/Model.v', 'theories/C08/Proofs.v', 'theories/C08/Run.v'], 'theories/C08/Properties.v')
+    proved = chk.prove(['theories/C08/Model.v', 'theories/C08/Proofs.v', 'theories/C08/IterProduct.v', 'theories/C08/Run.v'], 'theories/C08/Properties.v')
     model_ok = True
     if not proved:
         try:
